@@ -23,6 +23,7 @@ type Alloc struct {
 	Stream  bool
 	Bounded bool // a check relating the count to the remaining input precedes it
 	Hint    bool // make() is given the count (maps may omit it)
+	ZeroSize bool // elements occupy no memory (field-less struct)
 	Pos     token.Pos
 }
 
